@@ -26,4 +26,9 @@ META = {
         text="Exploration: oracle sets of 1..12 (20 thorough) members with generated stake distributions and delegate bounds; every observation must satisfy 100*S >= 66*recorded total with S over distinct registered voters of that very claim, recorded total power never below the online oracles' power, votes only from online registered oracles; a block-level sub-check delivers MsgClaim transactions whose wrapper and wrapped bridger differ and requires that no vote is recorded for an oracle whose bridger did not sign.",
         note="Same machine as C01. Power unit = 100 FX (sdk.DefaultPowerReduction in this app).",
     ),
+    "C12": dict(
+        technique="property-based differential testing (rapid): fxcore's checkpoint functions vs an independently written Solidity-ABI encoder over boundary-biased generated objects; stateful generated confirmation matrix (key x digest x bridger x address field x signature surgery) against a reference verifier",
+        text="Exploration: thousands of generated oracle sets / batches / bridge calls over the full uint64 and uint256 ranges are hashed by fxcore (both ABI variants) and by the reference transcribed from FxBridgeLogic.sol; on the real keeper generated well-formed and transplanted / malformed confirmations must be accepted exactly when the reference verification says so and are stored at most once per object and oracle.",
+        note="Contract side = transcription of the Solidity abi.encode argument lists (no compiler available); go-ethereum keccak/secp256k1 trusted.",
+    ),
 }
